@@ -1,0 +1,13 @@
+//go:build verif
+
+package v2
+
+// VerifHook is called at the linearization points of Mine when built with the verif tag.
+// It is used by the /verif conformance drivers to record events and to gate goroutines.
+var VerifHook func(ev string, id uint64)
+
+func verifHook(ev string, id uint64) {
+	if h := VerifHook; h != nil {
+		h(ev, id)
+	}
+}
